@@ -71,7 +71,7 @@ def gen(ctx):
             prof = ["narrowing", "special", "mixed", "narrowing", "random"][k]
             sets.append(IO.fmt_dat(IO.gen_dat(infos[a], rnd, prof, maxcells=32 if ctx.quick else 96)))
         data[a] = sets
-    nvals = 100000 if ctx.quick else 2000000
+    nvals = 100000 if ctx.quick else 4000000
     vals = [IO.narrow_value(rnd) for _ in range(nvals)]
     wvals = [rnd.choice([rnd.getrandbits(32), rnd.choice(IO.F32_SPECIAL), rnd.getrandbits(23) | (rnd.getrandbits(1) << 31),
                          (rnd.getrandbits(8) << 23) | rnd.choice([0, 1, 0x7fffff])]) for _ in range(nvals // 5)]
